@@ -30,10 +30,13 @@ TRUSTED = [
     "equality 'up to floating-point rounding' between scorer and guesser products is measured (<= 1e-12 relative), not proved",
 ]
 ASSUMES = [
-    "C13_promise_Q_partial: exact rational arithmetic; non-empty string (no hypothesis on the characters any more: the scorer's "
-    "rebuild check is the mask round trip with the interpreter's upper() as oracle; side condition C13_source_rebuild_check)",
-    "the guesser's side of the theorem is the relation c_generates over the tables the scorer loaded; its agreement with the real "
-    "PcfgGrammar enumeration is a correspondence obligation of every run",
+    "C13_promise_Q: exact rational arithmetic (QProb); non-empty string; no hypothesis on the characters (the scorer's rebuild "
+    "check is the mask round trip with the interpreter's upper() as oracle; side condition C13_source_rebuild_check)",
+    "the guesser's side is all_preterminals (NextSpec) / denote (Expand) of guesser_view rs, the scorer's tables grouped the way "
+    "the guesser's loader groups them; that this view equals what the real PcfgGrammar loads from the same files is a "
+    "correspondence obligation of every run (guesser-view:*), as is the enumerated language (score:*)",
+    "C13_promise_emitted additionally assumes wf (guesser_view rs) (probabilities in [0,1], groups in non-increasing order: "
+    "what the trainer writes) and a queue meeting the heap contract (C02's hypotheses)",
 ]
 
 TOL = 1e-12
@@ -184,6 +187,82 @@ def cruleset(sc):
                 clen_table(sc.count_alpha), clen_table(sc.count_alpha_masks), clen_table(sc.count_digits),
                 clen_table(sc.count_other), clen_table(sc.count_keyboard), centries(sc.count_years),
                 centries(sc.count_context_sensitive)))
+
+
+# ---- the guesser's view of the tables (exact rationals) against what the real guesser loaded
+
+def cq(x):
+    from fractions import Fraction
+    f = Fraction(x)
+    if f < 0:
+        raise ValueError("negative probability")
+    return "(%d # %d)" % (f.numerator, f.denominator)
+
+
+def cq_entries(d):
+    if not d:
+        return "(@nil (str * Q))"
+    return "[" + "; ".join("(%s, %s)" % (common.cstr(k), cq(v)) for k, v in d.items()) + "]"
+
+
+def cq_len_table(t):
+    if not t:
+        return "(@nil (Z * entries Q))"
+    return "[" + "; ".join("(%d%%Z, %s)" % (L, cq_entries(c)) for L, c in t.items()) + "]"
+
+
+def cq_ruleset(sc):
+    bases = []
+    for k, v in sc.count_base_structures.items():
+        labs = C05.BASE_RE.findall(k)
+        if "".join(labs) != k:
+            continue
+        bases.append("(%s, %s)" % (clabels(labs) if labs else "(@nil label)", cq(v)))
+    return ("{| r_bases := %s; r_alpha := %s; r_masks := %s; r_digits := %s; r_other := %s; r_keyboard := %s; "
+            "r_years := %s; r_context := %s |}" % (
+                ("[" + "; ".join(bases) + "]") if bases else "(@nil (list label * Q))",
+                cq_len_table(sc.count_alpha), cq_len_table(sc.count_alpha_masks), cq_len_table(sc.count_digits),
+                cq_len_table(sc.count_other), cq_len_table(sc.count_keyboard), cq_entries(sc.count_years),
+                cq_entries(sc.count_context_sensitive))), len(bases)
+
+
+VKEY = {"K": "VK", "A": "VA", "C": "VC", "D": "VD", "O": "VO"}
+
+
+def cvkey(name):
+    if name == "Y1":
+        return "VY"
+    if name == "X1":
+        return "VX"
+    m = re.match(r"^([KACDO])(\d+)$", name)
+    if not m:
+        return None
+    return "(%s %s)" % (VKEY[m.group(1)], m.group(2))
+
+
+def gview_source(sc, g):
+    """the real PcfgGrammar's variables and base structures (Markov / e-mail / website variables left out)"""
+    rsq, nb = cq_ruleset(sc)
+    vars_ = []
+    for name, groups in g.grammar.items():
+        k = cvkey(name)
+        if k is None:
+            continue
+        vars_.append("(%s, [%s])" % (k, "; ".join("(%s, %s)" % (cq(gr["prob"]), C05.cstrs(gr["values"])) for gr in groups)))
+    bases = []
+    for b in g.base:
+        if any(cvkey(r) is None for r in b["replacements"]):
+            continue
+        bases.append("([%s], %s)" % ("; ".join(cvkey(r) for r in b["replacements"]), cq(b["prob"])))
+    src = ["From Coq Require Import List ZArith NArith Bool QArith.",
+           "From Pcfg Require Import Str Detect Segment Scorer ScorerGuesser.",
+           "Import ListNotations.", "Open Scope Z_scope.",
+           "Definition rsq : Scorer.ruleset Q := %s." % rsq,
+           "Definition vars : list (vkey * list (Q * list Str.str)) := %s." %
+           (("[" + ";\n ".join(vars_) + "]") if vars_ else "[]"),
+           "Definition bases : list (list vkey * Q) := %s." % (("[" + ";\n ".join(bases) + "]") if bases else "[]"),
+           "Eval vm_compute in (gview_check rsq vars bases)."]
+    return "\n".join(src)
 
 
 def shard_source(case):
@@ -353,11 +432,19 @@ def run(ctx):
             dist["language_compared_in_coq"] += 1
         name = "r%03d" % i
         shards.append((name, shard_source((cruleset(sc), scored, mwq, small))))
+        shards.append(("v%03d" % i, gview_source(sc, g)))
+        meta["v%03d" % i] = {"training": pws}
         meta[name] = {"training": pws, "strings": [s for s, _ in scored]}
         if len(samples) < 3:
             nz = [(s, r[1]) for s, r in scored if r and r[1] != 0][:3]
             samples.append({"training": pws[:8], "nonzero": nz, "language": len(lang)})
     for name, idx, log in common.run_case_shards("C13", shards):
+        if name.startswith("v"):
+            ok = idx == []
+            corr.append(("guesser-view:" + name, ok, "" if ok else
+                         "guesser_view of the scorer's tables differs from what PcfgGrammar loaded (variables %s / 1000+base): %s; "
+                         "training list %s" % (idx, log[-300:] if idx is None else "", json.dumps(meta[name]["training"])[:400])))
+            continue
         if idx is None:
             corr.append(("score:" + name, False, log[-800:]))
         elif idx:
